@@ -131,8 +131,9 @@ class Cl:
 
 
 class Gen:
-    def __init__(self, rng, exe, check_ip=None, netbits=None, real_z=False, bind=None, hostile=0.0, matrix=False, wild=None, other=1.0):
+    def __init__(self, rng, exe, check_ip=None, netbits=None, real_z=False, bind=None, hostile=0.0, matrix=False, wild=None, other=1.0, scenario=None):
         self.hostile = hostile
+        self.scenario = scenario    # None: a scripted opening is drawn at random; "lazy" / "upper_users": that one, nothing left to chance
         self.matrix = matrix        # open the run with scenario_bytes_matrix (byte-level correspondence: every encoder path)
         self.rng = rng
         self.h = Harness(exe, real_z)
@@ -408,6 +409,17 @@ class Gen:
             return
         # a query that was just moved to the send-real-soon slot is the interesting one: its answer is due within the same 20 ms
         soon = [c for c in cands if c[1].meta["id"] in heldqs]
+        if faithful_soon == "flip":
+            # the repeat of a parked query arrives with another id and a name that differs in letter case only (a relay doing 0x20 mixing)
+            if not cands:
+                return
+            cl, st0 = cands[-1]
+            m = st0.meta
+            nm = flip_case(self.rng, m["name"])
+            if nm == m["name"]:
+                nm = m["name"].swapcase()
+            self.q(cl, nm, qtype=m["qtype"], id_=self.dnsid(zero_ok=False), src=m["src"], meta={"kind": "redeliver-held", "orig": st0})
+            return
         if faithful_soon:
             if not soon:
                 return
@@ -606,11 +618,17 @@ class Gen:
         st = self.q(cl, cl.c.option(b"l"), meta={"kind": "O"})
         cl.lazy = True
         self.act_ping(cl)
+        self.act_redeliver_held(faithful_soon="flip")
         for npk in range(self.rng.randrange(2, 6)):
             # one packet in 2..5 fragments (short host names make small fragments)
             cl.c.up_seq = (cl.c.up_seq + 1) & 7
             cl.c.up_frag = 0
-            img = b"\x5a" + C.ip_packet(0x08080808, bytes(self.rng.randrange(256) for _ in range(self.rng.choice([90, 150, 260]))))
+            if npk == 1 and cl.tun_ip:
+                # a packet addressed to the sender's own tunnel address, larger than a downstream fragment: routed straight into the query the
+                # server is holding for this very user, in the middle of handling the fragment that completed it
+                img = b"\x5a" + C.ip_packet(cl.tun_ip, bytes(self.rng.randrange(256) for _ in range(260)))
+            else:
+                img = b"\x5a" + C.ip_packet(0x08080808, bytes(self.rng.randrange(256) for _ in range(self.rng.choice([90, 150, 260]))))
             off = 0
             while off < len(img) and not self.h.dead:
                 cl.c.maxlen = 110
@@ -630,6 +648,29 @@ class Gen:
                     self.h.send("tick", {"kind": "tick"})
             if npk % 2 == 0 or self.rng.random() < 0.5:
                 self.act_ping(cl)
+
+    def scenario_upper_users(self):
+        """a scripted opening: twelve version handshakes take the user slots 0..11; the clients in slots 10 and 11 (user id `a`/`b` in data
+        queries) sit behind a relay that upper-cases every query name, log in and upload data in Base32"""
+        while len(self.clients) < 12 and not self.h.dead:
+            self.act_new_client()
+        for cl in self.clients[10:12]:
+            if not cl.versioned or self.h.dead:
+                continue
+            cl.relay_case = "upper"
+            st = self.q(cl, cl.c.login(), meta={"kind": "L", "good": True})
+            for e in (st.events if st else []):
+                if e[0] == "ans" and vlib.unhx(e[6]).count(b"-") == 3:
+                    cl.authed = True
+                    try:
+                        cl.tun_ip = struct.unpack(">I", bytes(int(x) for x in vlib.unhx(e[6]).split(b"-")[1].split(b".")))[0]
+                    except Exception:
+                        pass
+            if not cl.authed:
+                continue
+            for _ in range(4):
+                self.act_data(cl)
+            self.act_ping(cl)
 
     def scenario_bytes_matrix(self):
         """a scripted opening for the byte-level correspondence (Server/Bytes.lean): every answer type x every downstream codec with
@@ -757,6 +798,11 @@ class Gen:
         if self.matrix:
             self.scenario_bytes_matrix()
         r0 = rng.random()
+        if self.scenario == "lazy":
+            r0 = 0.0
+        elif self.scenario == "upper_users":
+            r0 = 1.0
+            self.scenario_upper_users()
         if r0 < 0.4:
             self.scenario_lazy_repeats()
         elif r0 < 0.6:
